@@ -7,6 +7,8 @@ mod c12;
 mod c14;
 mod c15;
 mod c15w;
+mod c16;
+mod c16w;
 mod c17;
 mod common;
 mod corpus;
@@ -166,6 +168,11 @@ fn run_check(id: &str, tier: Tier) -> i32 {
             r.parts.push(c15::part_sweep(tier));
             finish(r)
         }
+        "C16" => {
+            let mut r = Report::new("C16", tier, "exploration");
+            r.parts.push(c16::part_sweep(tier));
+            finish(r)
+        }
         "C17" => {
             let mut r = Report::new("C17", tier, "model_checking");
             r.parts.push(c17::part_index(tier));
@@ -197,6 +204,7 @@ fn replay(path: &str) -> i32 {
         "e2e" => e2x::replay(rp),
         "dap" => dapx::replay(rp),
         "c15" => c15::replay(rp),
+        "c16" => c16::replay(rp),
         "c08-parse" => c08::replay(rp),
         "c04" => c04::replay(rp),
         e => {
